@@ -105,13 +105,13 @@ def run_test(test, fc, cat, nobs, draws=None):
     return res, spy.calls[0]['out']
 
 
-def judge_pair(shape, rates, counts, cat, fc, reg_info, failures, hsh, sims_draws=None):
+def judge_pair(shape, rates, counts, cat, fc, reg_info, failures, hsh, sims_draws=None, tests=('L', 'CL', 'S', 'M')):
     nc, nm = shape
     data = numpy.array(rates, dtype=float).reshape(nc, nm)
     cnt = numpy.array(counts, dtype=int).reshape(nc, nm)
     nobs = int(cnt.sum())
     evals = 0
-    for test in ('L', 'CL', 'S', 'M'):
+    for test in tests:
         vr, vc, total = views(test, data, cnt)
         want, mag = ref_value(vr, vc, total)
         zero_target = any(w > 0 and l <= 0 for l, w in zip(vr, vc))
@@ -176,6 +176,33 @@ def run_case(case):
         fc = fixtures.gridded_forecast(numpy.array(rates, dtype=float).reshape(nc, nm), reg, mags)
         cat = fixtures.catalog(fixtures.events_from_counts(numpy.array(counts).reshape(nc, nm), origins, mags), region=reg)
         evals += judge_pair(shape, rates, counts, cat, fc, None, failures, hsh)
+        # history on ONE catalog object: evaluated, then its events are replaced by as many other events (the counts in reverse
+        # bin order), then evaluated again on the same region and forecast
+        if n <= 20000:
+            rc = list(counts)[::-1]
+            if pat == 3:
+                rc = [0 if rates[i] == 0 else c for i, c in enumerate(rc)]
+                rc[next(i for i, r in enumerate(rates) if r > 0)] += sum(counts) - sum(rc)
+            other = fixtures.catalog(fixtures.events_from_counts(numpy.array(rc).reshape(nc, nm), origins, mags), region=reg)
+            same_cat = fixtures.catalog(fixtures.events_from_counts(numpy.array(counts).reshape(nc, nm), origins, mags), region=reg)
+            if other.event_count == same_cat.event_count:
+                judge_pair(shape, rates, counts, same_cat, fc, None, [], hsh)          # first evaluation (judged above on a fresh catalog)
+                same_cat.catalog = other.catalog.copy()
+                before = len(failures)
+                evals += judge_pair(shape, rates, rc, same_cat, fc, None, failures, hsh)
+                for f in failures[before:]:
+                    f['signature'] += ',events-replaced-on-the-same-catalog-object'
+        # M-test with an observed catalog that is bound to ANOTHER magnitude grid (same cells, bins twice as wide): the observed
+        # magnitude histogram is the one on the FORECAST's bins
+        if nm >= 2 and n <= 20000:
+            from csep.core.regions import CartesianGrid2D
+            wide = [float(mags[0]) + 2 * (float(mags[1]) - float(mags[0])) * k for k in range(nm)]
+            reg_w = fixtures.cartesian_region([tuple(o) for o in origins], 0.1, magnitudes=wide)
+            cat_w = fixtures.catalog(fixtures.events_from_counts(numpy.array(counts).reshape(nc, nm), origins, mags), region=reg_w)
+            before = len(failures)
+            evals += judge_pair(shape, rates, counts, cat_w, fc, None, failures, hsh, tests=('M',))
+            for f in failures[before:]:
+                f['signature'] += ',catalog-bound-to-another-magnitude-grid'
         # the forecast reaches the same rates through scale(<ndarray>): per-cell factors (n_cells, 1) and a full-shape array
         a_cell = numpy.array([[2.0, 0.5, 4.0, 1.0][c % 4] for c in range(nc)]).reshape(nc, 1)
         a_full = numpy.array([[2.0, 0.25, 1.0, 8.0, 0.5][i % 5] for i in range(n)]).reshape(nc, nm)
